@@ -260,7 +260,8 @@ func (m *M) SCSelectNil(r int, cond uint64, a int, which int) {
 	default:
 		err = m.S[r].CSelect(cond, nil, nil)
 	}
-	m.emit("SCSelectNil", kv{"r", r + 1}, kv{"err", errFlag(err)})
+	m.emit("SCSelectNil", kv{"r", r + 1}, kv{"cond", new(big.Int).SetUint64(cond).FillBytes(make([]byte, 8))},
+		kv{"a", a + 1}, kv{"which", which}, kv{"err", errFlag(err)})
 }
 func (m *M) SBits(a int) {
 	bits := m.S[a].Bits()
@@ -347,10 +348,11 @@ func (m *M) SDecodeForm(r int, form string, data []byte) {
 	if panicked {
 		ec = 9
 	}
-	if data == nil {
+	isNil := data == nil
+	if isNil {
 		data = []byte{}
 	}
-	m.emit(op, kv{"r", r + 1}, kv{"data", data}, kv{"err", ec})
+	m.emit(op, kv{"r", r + 1}, kv{"data", data}, kv{"nil", isNil}, kv{"err", ec})
 }
 
 // SSetInt puts a canonical integer < n into S[r] by writing its Montgomery form (no decoder involved).
